@@ -66,6 +66,15 @@ def eval(
 
 def load(path: Union[str, DDSPath, pathlib.Path]) -> Any:
     path_ = DDSPathUtils.create(path)
+    if _eval_ctx is not None and path_ in _eval_ctx.requested_paths:
+        # The path is produced by the current evaluation. It will only be committed when the evaluation
+        # completes: use the signature that this evaluation assigned to it, not the previous content of the path.
+        key = _eval_ctx.requested_paths[path_]
+        if not _store().has_blob(key):
+            raise DDSException(
+                f"The path {path_} is loaded before it has been produced by the current evaluation"
+            )
+        return _store().fetch_blob(key)
     key = _store().fetch_paths([path_]).get(path_)
     if key is None:
         raise DDSException(f"The store {_store()} did not return path {path_}")
@@ -294,6 +303,7 @@ def _eval_new_ctx(
             f"_eval_new_ctx: introspect_indirect: {len(all_loads)} loads detected"
         )
         all_stores = FunctionIndirectInteractionUtils.all_stores(inters_indirect)
+        FunctionIndirectInteractionUtils.check_load_order(inters_indirect, all_stores)
         _logger.debug(
             f"_eval_new_ctx: introspect_indirect: {len(all_loads)} loads and {len(all_stores)} detected"
         )
